@@ -212,4 +212,12 @@ def c11_6(c: Ctx) -> None:
                    node=arm, witness=[f'{where(u, arm)}: except {U(arm.type)} ... raise', f'awaited task `{t}` is created in this function; its own cancellation is indistinguishable from the caller being cancelled'])
 
 
+@ob('C11.7', 'DOM', 'a recorded handler error is final: a handler whose result ended in `error` is never run again for the same event (a second forwarding route, a re-dispatch), so the '
+    'captured error cannot be overwritten by a later success (same obligation as C01.5: the already-handled filter and the already-started guard cover the `error` status)')
+def c11_7(c: Ctx) -> None:
+    from .c01 import c01_5
+
+    c01_5(c)
+
+
 OBLIGATIONS = ob.obs
